@@ -390,9 +390,9 @@ def replay(case):
 
 def run(h):
     size, depth = ((1, 7), 2) if h.quick else ((1, 16), 3)
-    h.run_given(lambda: program_cases(size, depth), _prop_program, h.n(70, 4000), shards=16, name="programs")
-    h.run_given(lambda: value_cases(2 if h.quick else 3), _prop_value, h.n(120, 8000), shards=16, name="values")
-    h.run_given(ticket_cases, _prop_ticket, h.n(40, 3000), shards=16, name="ticket-values")
+    h.run_given(lambda: program_cases(size, depth), _prop_program, h.n(70, 1200), shards=16, name="programs")
+    h.run_given(lambda: value_cases(2 if h.quick else 3), _prop_value, h.n(120, 3000), shards=16, name="values")
+    h.run_given(ticket_cases, _prop_ticket, h.n(40, 1500), shards=16, name="ticket-values")
     h.coverage_extra["comb_instruction_histogram"] = {k[6:]: v for k, v in sorted(h.stats.extra.items())
                                                       if k.startswith("instr:")}
     for k in [k for k in h.stats.extra if k.startswith("instr:")]:
